@@ -659,7 +659,7 @@ impl Check for C03 {
         vec!["preemption only at the named pause points and call boundaries (plus whatever the OS does in free-running cases); no weak-memory exploration".into(), "the 25 ms no-progress timeout is a scheduling hint, never a verdict".into()]
     }
     fn plan(&self, tier: Tier) -> Plan {
-        Plan { cases: tier.pick(400, 30_000), max_recs: 40, max_shrink_iters: 300, workers: 8 }
+        Plan { cases: tier.pick(1_200, 60_000), max_recs: 40, max_shrink_iters: 300, workers: 8 }
     }
     fn run(&self, tape: &Tape, want_sample: bool) -> Result<CaseOut, Failure> {
         let (hist, points, r) = run_case(tape);
